@@ -179,13 +179,18 @@ Definition unit_is_wrapped (t : list (string * hook)) (u : unit_spec) : bool :=
     let occ := filter (fun l => leaf_is_call c l && (String.eqb (u_loop u) "" || in_loop (u_loop u) (lf_path l))) ls in
     negb (Nat.eqb (length occ) 0) && forallb (fun l => path_ok u (lf_path l)) occ) (u_calls u).
 
-(* the units that are genuinely not wrapped per item on the current tree (known findings) *)
-Definition kf_C15_1 (uid : string) : bool := String.eqb uid "v2.borrow".
-Definition kf_C15_3 (uid : string) : bool := String.eqb uid "v2.surplusdebt".
-(* environment class: the liquidation parameters are absent from the parameter store; GetParams
-   (unwrapped prologue of both sweeps) panics *)
-Definition kf_C15_4 (params_present : bool) : bool := negb params_present.
-Definition unit_known_unwrapped (u : unit_spec) : bool := kf_C15_1 (u_id u) || kf_C15_3 (u_id u).
+(* No unit is exempted: every unit of [hook_units] must be wrapped on the regenerated table.
+   History of the former exemptions (classes of known findings, all repaired or withdrawn):
+   - kf_C15_1, the V2 borrow unit: LiquidateBorrows runs each borrow inside ApplyFuncIfNoError since
+     fix C09-F3 / C15-F1;
+   - kf_C15_3, the V2 surplus / debt trigger: LiquidateForSurplusAndDebt runs each (app, asset)
+     inside ApplyFuncIfNoError since fix C15-F3 (reproduced on the real code before the repair: a
+     trigger that fails after GetAmountFromCollector kept its coin movement, and a panic inside it
+     left the hook);
+   - a class kf_C15_4 "liquidation parameters absent from the parameter store" was a false alarm of
+     the harness, not a finding: every module's InitGenesis - also when the module is added by an
+     upgrade - writes its parameters and no message deletes them, so the state is unreachable; the
+     harness no longer fabricates it and parameter presence is a stated assumption. *)
 
 (* ------------------------------------------------------------------------------------------ *)
 (* what stands outside every wrap                                                              *)
@@ -208,17 +213,17 @@ Inductive justification :=
 | JRangeIndex      (* x[i] inside  for i := range x : the index is in range by construction *)
 | JGuardedIndex    (* data.Rates[index] under  length > index  with index >= 0 *)
 | JSliceZero       (* x[:0] is valid for every slice, nil included *)
-| JSliceWindow     (* total[start:end] with the window of Sweep.v: sweep_window_ok, needs counter <= cap *)
+| JSliceWindow     (* total[start:end] with the window of Sweep.v: sweep_slice_no_panic for every offset and batch
+                      size; needs counter <= cap, which holds in every reachable state (C01: vault count =
+                      number of open vaults; the borrow sweeps pass len(borrowIDs) itself) *)
 | JStoreWrite      (* a single marshal + store.Set / a straight-line sequence of them *)
 | JMarket          (* market.UpdatePriceList: C17 theorem c17_no_panic, window size >= 2 *)
-| JBand            (* bandoracle.FetchPrice: returns its errors; ibc send is modelled, not verified *)
-| JKnownFinding.   (* not justified: a listed known-finding class *)
+| JBand.           (* bandoracle.FetchPrice: returns its errors; ibc send is modelled, not verified *)
 
 (* the unwrapped leaves that are not plain reads, as found on the current tree; a new one (or a
    changed slice / index expression) is not in this list and breaks c15_unwrapped_total *)
 Definition unwrapped_registry : list (leaf_kind * justification) := [
   (LRisk "index" "appIds[i]", JRangeIndex);
-  (LRisk "index" "newBorrowIDs[l]", JRangeIndex);
   (LRisk "index" "data.Rates[index]", JGuardedIndex);
   (LRisk "slice" "twa.PriceValue[:0]", JSliceZero);
   (LRisk "slice" "totalVaults[start:end]", JSliceWindow);
@@ -231,9 +236,7 @@ Definition unwrapped_registry : list (leaf_kind * justification) := [
   (LCall "bandoracle.SetCheckFlag" Writes, JStoreWrite);
   (LCall "bandoracle.SetOracleValidationResult" Writes, JStoreWrite);
   (LCall "market.UpdatePriceList" Writes, JMarket);
-  (LCall "bandoracle.FetchPrice" Writes, JBand);
-  (LCall "liquidationsV2.LiquidateIndividualBorrow" Writes, JKnownFinding);
-  (LCall "liquidationsV2.CheckStatsForSurplusAndDebt" Writes, JKnownFinding)
+  (LCall "bandoracle.FetchPrice" Writes, JBand)
 ].
 
 Definition call_kind_eqb (a b : call_kind) : bool :=
@@ -271,7 +274,20 @@ Definition all_root_leaves (t : list (string * hook)) : list leaf := flat_map (r
 Definition holds_C15 (hook_returned : bool) (unit_diff : Z) (others_processed : bool) : bool :=
   hook_returned && (Z.eqb unit_diff 0 || Z.eqb unit_diff 1) && others_processed.
 
-(* what the table predicts for a failure injected into the unit [uid]: wrapped units show no
-   writes; for the known unwrapped ones nothing is promised *)
+(* diff class of the V2 surplus / debt trigger observed through its own projection.  The harness
+   prints whether the hook reported the unit's failure (its liquidate_err event) and the change,
+   over the hook run, of everything the trigger writes: collector module balance, net fees,
+   locked-vault id counter, auction id counter, "auction active" flag of the mapping.
+     0 = nothing of the unit is visible;
+     1 = the complete unit: no failure reported, one locked vault, one auction, the mapping marked
+         active, and the lot taken from the collector balance and from the net fees alike (a
+         surplus auction; a debt auction takes nothing);
+     2 = anything else (partial). *)
+Definition trigger_obs_diff (failed : bool) (dcoll dnet dlocked dauction dactive : Z) : Z :=
+  if forallb (Z.eqb 0) [dcoll; dnet; dlocked; dauction; dactive] then 0
+  else if negb failed && Z.eqb dlocked 1 && Z.eqb dauction 1 && Z.eqb dactive 1 && Z.eqb dnet dcoll && Z.leb dcoll 0 then 1
+  else 2.
+
+(* what the table predicts for a failure injected into the unit [uid]: wrapped units show no writes *)
 Definition table_says_wrapped (uid : string) : bool :=
   existsb (fun u => String.eqb (u_id u) uid && unit_is_wrapped hook_table u) hook_units.
